@@ -1,0 +1,14 @@
+//go:build verif
+
+package dispatcher
+
+// Contracts for govc (see /verif/DESIGN.md). Comments only; compiled only with -tags verif.
+
+//@ spec
+//@ pred retryableSpec(err error, code int, denied bool) := (err != nil && !denied) || (err == nil && (code == 408 || code == 429 || code >= 500))
+
+//@ func isSuccess
+//@   ensures [iff_2xx] result <==> (res.Err == nil && res.StatusCode >= 200 && res.StatusCode < 300)
+
+//@ func shouldRetry
+//@   ensures [iff_spec] result <==> retryableSpec(res.Err, res.StatusCode, errIs(res.Err, ErrPolicyDenied))
